@@ -46,7 +46,7 @@ _state = {}
 # payload monitor (S-alloc): sizes of arguments actually passed to payloads
 # ---------------------------------------------------------------------------
 
-MEASURED = (str, bytes, list, tuple, dict, set, frozenset)
+MEASURED = (str, bytes, list, tuple, dict, set, frozenset, int)
 
 
 def install_payload_monitor():
@@ -115,7 +115,8 @@ def prepare(params, replay=False):
 
 
 WRAPS = ['none', 'none', 'none', 'toList', 'len', 'first', 'wherefalsefirst',
-         'listexpr', 'dictexpr', 'listlist', 'selectpair']
+         'listexpr', 'dictexpr', 'listlist', 'selectpair', 'dictkey',
+         'dictkeylist']
 GROW = [
     "$a + $a + $a + $a",
     "($a + $b) * $n",
@@ -151,6 +152,15 @@ GROW = [
     "[1, 2].select($big).len()",
     "$big.split('y').len()",
     "$big in $a",
+    "pow(7, $n * 2000)",
+    "pow(2, $n * 4000) + 1",
+    "shiftBitsLeft(1, $n * 8000)",
+    "[1, 2, 3, 4, 5, 6, 7, 8, 9, 10, 11, 12, 13, 14, 15, 16]"
+    ".aggregate($1 * $1, 3)",
+    "$l.take(12).accumulate($1 * $1 + 1, 3).last()",
+    "$bigi + 1",
+    "str($bigi).len()",
+    "[$bigi].len()",
     "@LIT@.len()",
     "@LIT@ + $a",
     "$a + @LIT@",
@@ -177,6 +187,8 @@ def gen_case(seeds, params, index):
                 'l': w.choice([[1], [1, 2], [1, 2, 3], list(range(8))]),
                 'n': w.choice([20000000, 30000000]), 'Q': 10000}
     flavour = 'legacy' if index % 2 else 'default'
+    if r < 0.45:
+        return gen_lambda_result_case(w, f, flavour, index)
     targets = synth.collection_targets(flavour)
     ti = (index // 2) % len(targets)
     ei, slot = targets[ti]
@@ -213,6 +225,31 @@ def gen_case(seeds, params, index):
             'wrap': w.choice(WRAPS), 'convert_output': w.random() < 0.8}
 
 
+def gen_lambda_result_case(w, f, flavour, index):
+    """The lazy sequence reaches the library function as the RESULT of a
+    lambda (producer / selector), not as a declared argument."""
+    targets = synth.lambda_targets(flavour)
+    ei, slot = targets[(index // 2) % len(targets)]
+    e = synth.inventory(flavour)[ei]
+    N = f.choice(NS)
+    stream = f.choice([['endless'], ['endless'], ['finite', N + 1],
+                       ['finite', N]])
+    call = synth.synth_call(w, flavour, (ei, slot), ['lam', '$s'])
+    # boolean options (depthFirst, decycle ...): enumerate the combinations
+    # over the visits of this target instead of drawing them
+    bools = [(i, p) for i, p in enumerate(e['positional'])
+             if 'bool' in p['accepts'] and len(p['accepts']) <= 2]
+    combo = (index // (2 * len(targets))) + w.randrange(2)
+    for bi, (i, p) in enumerate(bools):
+        if len(call['args']) > i:
+            call['args'] = call['args'][:i]
+        call['kwargs'][p['alias']] = ['lit', bool((combo >> bi) & 1)]
+    return {'family': 'limit', 'flavour': flavour, 'N': N, 'Q': -1,
+            'target': [e['name'], slot, ei], 'stream': stream, 'call': call,
+            'wrap': w.choice(['none', 'none', 'toList', 'len', 'first']),
+            'convert_output': True, 'via_lambda': True}
+
+
 def lib_call(stream):
     k = stream[1]
     if k == 'sequence':
@@ -246,7 +283,7 @@ def gen_quota_case(w, f):
         Q = f.choice([200, 500, 1000, 2000, 5000, 20000])
     return {'family': 'quota', 'Q': Q, 'expr': w.choice(GROW), 'a': a, 'b': b,
             'n': w.choice([1, 2, 3, 5, 10, 40, 100, 1000]),
-            'l': list(range(w.choice([0, 1, 2, 5, 20, 60, 200]))),
+            'l': list(range(w.choice([0, 1, 2, 5, 12, 20, 60, 200]))),
             'N': f.choice([-1, -1, 100])}
 
 
@@ -281,6 +318,15 @@ def wrap_spec(wrap, call):
     if wrap == 'dictexpr':
         return {'name': '#map', 'method': False,
                 'args': [['rule', 'a', c]], 'kwargs': {}}
+    if wrap == 'dictkey':
+        # the collection ends up as a KEY of the result (hashable when it is
+        # a tuple and the engine keeps tuples)
+        return {'name': '#map', 'method': False,
+                'args': [['rulex', c, ['lit', 1]]], 'kwargs': {}}
+    if wrap == 'dictkeylist':
+        tl = ['call', m('toList')]
+        return {'name': '#map', 'method': False,
+                'args': [['rulex', tl, ['lit', 1]]], 'kwargs': {}}
     if wrap == 'selectpair':
         return m('select', ['lam', '[$, [$, $]]'])
     raise core.HarnessError(wrap)
@@ -428,7 +474,13 @@ def exec_limit(case, stats):
                                     'from a lazy sequence handed to a library '
                                     'function', 'detail': detail})
             break
-    if kind in ('budget', 'memoryerror') and not viols:
+    endless = case['stream'][0] in ('endless', 'lib') or any(
+        x.length is None or x.length > N for x in registry)
+    if kind in ('budget', 'memoryerror') and not viols and not endless:
+        # bounded input, step budget exhausted: work that is legitimately
+        # super-linear in N (nested growth) - not a verdict
+        stats.inc('indeterminate.slow_without_endless_source')
+    if kind in ('budget', 'memoryerror') and not viols and endless:
         viols.append({'key': 'C08:does-not-terminate:%s' % tname,
                       'clause': 'evaluations over endless generators '
                                 'terminate (step budget exhausted)',
@@ -505,6 +557,7 @@ def exec_quota(case, stats):
     # host values that are over the quota before anything is computed
     ctx['big'] = 'x' * (Q + 100)
     ctx['bigl'] = tuple(range(Q // 8 + 50))
+    ctx['bigi'] = 1 << (8 * (Q + 100))
     _mon['Q'] = Q
     _mon['over'] = []
     _mon['ran'] = set()
@@ -654,6 +707,7 @@ def coverage(stats, params):
         'outcomes': stats.counters('outcome.'),
         'quota_outcomes': stats.counters('quota_outcome.'),
         'status': stats.counters('status.'),
+        'indeterminate': stats.counters('indeterminate.'),
         'simulated_time_steps': stats.counters('steps.'),
         'faults_fired': stats.counters('fault.'),
         'probes': stats.counters('probe.'),
